@@ -11,7 +11,7 @@
    are not scripted: the model is given the offsets that were observed (their
    number and the reported midpoint are still checked). *)
 From Coq Require Import ZArith List String Bool.
-From ST Require Import Base.Ints Base.Value Model.Sample Model.PathAssign Model.PathOracle Model.Pather Extract.GlueBase.
+From ST Require Import Base.Ints Base.Value Model.Ftm Model.Sample Model.PathAssign Model.PathOracle Model.Pather Extract.GlueBase.
 Import ListNotations.
 Open Scope string_scope.
 Open Scope Z_scope.
@@ -395,6 +395,75 @@ Definition glue_stat (a o : list value) : option verdict :=
   | _, _ => None
   end.
 
+(* mp.service - the service's own wiring in a child process (createClocks, StartPather, MeasureClockOffset of a
+   SCION reference clock with its seven clients) against the scripted daemon and peer.  All clients carry the
+   same DSCP value, so a round is observed as the set of next hops that received requests and the largest
+   number of requests at one next hop.  Oracle (no model): the next hops probed are paths the daemon last
+   reported for the clock's IA (at a refresh that has taken effect), as many as min(7, paths) - two clients on
+   one path would leave a path unused -, at most three requests each; errNoPath exactly without paths; and with
+   unchanged paths the clients of a clock (all in interleaved mode after their first round) probe the same
+   paths as in the clock's previous round.  odd = lookups the daemon saw without the refresh flag or with
+   another source than the local IA. *)
+Definition svc_clients : Z := 7.
+Fixpoint svc_prev (c : Z) (l : list (Z * (list dpath * list Z))) : option (list dpath * list Z) :=
+  match l with [] => None | (c', x) :: r => if c =? c' then Some x else svc_prev c r end.
+Definition svc_round_ok (truth : list dpath) (cls : Z) (hops : list Z) (maxrq : Z) (prev : option (list dpath * list Z)) : bool :=
+  let n := Z.of_nat (length truth) in
+  forallb (fun h => zmem h (map fst truth)) hops && znodupb hops
+  && (if n =? 0 then (cls =? 1) && Nat.eqb (length hops) 0
+      else (cls =? 0) && (Z.of_nat (length hops) =? Z.min svc_clients n) && (maxrq <=? 3))
+  && match prev with
+     | Some (t0, h0) => if dpaths_eqb t0 truth then zlist_eqb h0 hops else true
+     | None => true
+     end.
+Fixpoint svc_run (prev : list (Z * (list dpath * list Z))) (rins robs : list value) : bool :=
+  match rins, robs with
+  | [], [] => true
+  | VL [VZ c; VL tv] :: rins', VL [VZ cls; VL hv; VZ maxrq] :: robs' =>
+      match parse_offered tv, getZs hv with
+      | Some truth, Some hops =>
+          svc_round_ok truth cls hops maxrq (svc_prev c prev) && svc_run ((c, (truth, hops)) :: prev) rins' robs'
+      | _, _ => false
+      end
+  | _, _ => false
+  end.
+Definition glue_service (a o : list value) : option verdict :=
+  match a, o with
+  | [VL rins], [VL robs; VZ odd] => Some (relational true ((odd =? 0) && negb (Nat.eqb (length rins) 0) && svc_run [] rins robs))
+  | _, _ => None
+  end.
+
+(* mp.collect - collectMeasurements alone: the participants deliver in the order given, the context ends after
+   `cut` deliveries.  Model: round_offset_cut.  Oracle: the midpoint over the successes delivered in time,
+   errNoMeasurement without one, and the late participants are drained. *)
+Fixpoint parse_arrived (l : list value) : option (list (option Z)) :=
+  match l with
+  | [] => Some []
+  | VL [VZ ok; VZ v] :: r =>
+      match parse_arrived r with Some a => Some ((if zb ok then Some v else None) :: a) | None => None end
+  | _ => None
+  end.
+Definition glue_collect (a o : list value) : option verdict :=
+  match a, o with
+  | [VL av; VZ cut], [VZ n; VZ cls; VZ off; VZ drained] =>
+      match parse_arrived av with
+      | Some arrived =>
+          let intime := measured (firstn (Z.to_nat cut) arrived) in
+          let exp := match round_offset_cut arrived (Z.to_nat cut) with
+                     | Some m => [VZ (Z.of_nat (length intime)); VZ 0; VZ m]
+                     | None => [VZ 0; VZ 4; VZ 0]
+                     end in
+          let orc := (drained =? 1)
+                     && match Ftm.ftm intime with
+                        | Some m => (cls =? 0) && (off =? m)
+                        | None => cls =? 4
+                        end in
+          Some (functional exp [VZ n; VZ cls; VZ off] orc)
+      | None => None
+      end
+  | _, _ => None
+  end.
+
 Definition glue_C15 (k : string) (a o : list value) : option verdict :=
   if is k "rand.intn" then glue_intn a o
   else if is k "rand.sample" then glue_sample a o
@@ -403,6 +472,8 @@ Definition glue_C15 (k : string) (a o : list value) : option verdict :=
   else if is k "mp.pather.dupia" then glue_pather a o
   else if is k "mp.race" then glue_race a o
   else if is k "stat.uniform" then glue_stat a o
+  else if is k "mp.service" then glue_service a o
+  else if is k "mp.collect" then glue_collect a o
   else None.
 
 Definition run_case (k : string) (a o : list value) : verdict := first_some [glue_C15] k a o.
